@@ -27,7 +27,7 @@ def wf_headers(rng, n=None):
     return hs
 
 
-BODIES = [b"", b"abc", b"\r\n\r\n", b"GET / HTTP/1.1\r\n\r\n", b"0\r\n\r\n", b"5\r\nhello\r\n0\r\n\r\n", b"Content-Length: 99\r\n", b"\x00\xff\xfe"]
+BODIES = [b"a\r", b"\r", b"\r\n\r", b"\n", b"x\r\r", b"", b"abc", b"\r\n\r\n", b"GET / HTTP/1.1\r\n\r\n", b"0\r\n\r\n", b"5\r\nhello\r\n0\r\n\r\n", b"Content-Length: 99\r\n", b"\x00\xff\xfe"]
 
 
 def d8_target(t: bytes) -> bool:
@@ -50,6 +50,8 @@ class C10:
         for k in range(n):
             hs = wf_headers(rng)
             body = rng.pick(BODIES) if rng.chance(1, 2) else gen.rand_bytes(rng, rng.below(30))
+            if rng.chance(1, 8):
+                body += rng.pick([b"\r", b"\n", b"\r\n", b" ", b"\t"])
             with_cl = bool(body) or rng.chance(1, 3)
             if with_cl:
                 hs.insert(rng.below(len(hs) + 1), (gen.randcase(rng, b"Content-Length") if rng.chance(1, 4) else b"Content-Length", str(len(body)).encode()))
